@@ -156,6 +156,44 @@ func scenarioC13(c *hlib.RunCtx) *hlib.Violation {
 	if t.Bool(1, 3) {
 		ucfg.Programs = ucfg.Programs[:1]
 	}
+	// Shapes of a configuration that mean the same: lists in another order, a
+	// bucket list written as two entries, a program without counters, a program
+	// listed after the others.
+	switch t.Biased(6, 1, 2) {
+	case 1:
+		for i, j := 0, len(ucfg.GoVersion)-1; i < j; i, j = i+1, j-1 {
+			ucfg.GoVersion[i], ucfg.GoVersion[j] = ucfg.GoVersion[j], ucfg.GoVersion[i]
+		}
+		s.Probe("config-go-versions-reversed")
+	case 2:
+		for i, j := 0, len(ucfg.Programs)-1; i < j; i, j = i+1, j-1 {
+			ucfg.Programs[i], ucfg.Programs[j] = ucfg.Programs[j], ucfg.Programs[i]
+		}
+		s.Probe("config-programs-reversed")
+	case 3:
+		cs := ucfg.Programs[0].Counters
+		for i := range cs {
+			if cs[i].Name == "editor:{vscode,vim,emacs}" {
+				cs[i].Name = "editor:{vscode}"
+				ucfg.Programs[0].Counters = append(cs, telemetry.CounterConfig{Name: "editor:{vim,emacs}", Rate: 1})
+			}
+		}
+		s.Probe("config-bucket-list-in-two-entries")
+	case 4:
+		ucfg.Programs = append(ucfg.Programs, &telemetry.ProgramConfig{Name: "example.com/quiet", Versions: []string{"v1.0.0"}})
+		s.Probe("config-program-without-counters")
+	case 5:
+		for _, p := range ucfg.Programs {
+			for i, j := 0, len(p.Versions)-1; i < j; i, j = i+1, j-1 {
+				p.Versions[i], p.Versions[j] = p.Versions[j], p.Versions[i]
+			}
+			for i, j := 0, len(p.Counters)-1; i < j; i, j = i+1, j-1 {
+				p.Counters[i], p.Counters[j] = p.Counters[j], p.Counters[i]
+			}
+		}
+		ucfg.GOOS[0], ucfg.GOOS[2] = ucfg.GOOS[2], ucfg.GOOS[0]
+		s.Probe("config-lists-reversed")
+	}
 	cfg := tconfig.NewConfig(ucfg)
 
 	// stored reports per day
